@@ -430,6 +430,7 @@ func runC02(c *core.Ctx) {
 	checkEscapeReach(c)
 	checkDuplicateCase(c)
 	checkByteTranscode(c)
+	checkScratchBuffers(c)
 	checkScanStep(c, "lex.step", nil, 10)
 }
 
@@ -1123,4 +1124,88 @@ func checkLoopGuardToken(c *core.Ctx) {
 		}
 	}
 	c.Floor("verdict.lasttoken", 4)
+}
+
+// checkScratchBuffers (escape.scratch): a helper that gets a *bytes.Buffer / *strings.Builder from its caller, appends
+// to it and then reads its *whole* content (Bytes, String, Len) computes its result from everything that was ever
+// written to that buffer. Handing it a buffer that lives longer than one call - a variable declared outside the loop
+// the call sits in - is only right when the helper (or the loop) resets the buffer first; otherwise the second call
+// sees the bytes of the first (the second %XX sequence of a string decodes to the first one's character).
+func checkScratchBuffers(c *core.Ctx) {
+	isBuf := func(t types.Type) bool {
+		n := core.NamedTypePkgName(t)
+		if _, isPtr := t.Underlying().(*types.Pointer); !isPtr {
+			return false
+		}
+		return n == "bytes.Buffer" || n == "strings.Builder"
+	}
+	funcs := c.Prog.ModuleFuncs("parser", "lexer")
+	n := 0
+	for _, fn := range funcs {
+		for pi, p := range fn.Params {
+			if !isBuf(p.Type()) || p.Referrers() == nil {
+				continue
+			}
+			writes, reads, resets := false, false, false
+			for _, r := range *p.Referrers() {
+				call, ok := r.(*ssa.Call)
+				if !ok || call.Common().StaticCallee() == nil || len(call.Common().Args) == 0 || call.Common().Args[0] != ssa.Value(p) {
+					continue
+				}
+				switch call.Common().StaticCallee().Name() {
+				case "Write", "WriteByte", "WriteRune", "WriteString":
+					writes = true
+				case "Bytes", "String", "Len":
+					reads = true
+				case "Reset", "Truncate":
+					resets = true
+				}
+			}
+			if !writes || !reads || resets {
+				continue
+			}
+			// call sites: the buffer handed in outlives the call?
+			for _, g := range funcs {
+				loops := naturalLoops(g)
+				for _, b := range g.Blocks {
+					for _, in := range b.Instrs {
+						call, ok := in.(*ssa.Call)
+						if !ok || call.Common().StaticCallee() != fn || pi >= len(call.Common().Args) {
+							continue
+						}
+						al, isAl := call.Common().Args[pi].(*ssa.Alloc)
+						if !isAl {
+							continue
+						}
+						n++
+						key := fmt.Sprintf("%s|%s", core.FnName(g), fn.Name())
+						shared := false
+						for _, l := range loops {
+							if l.body[b] && !l.body[al.Block()] {
+								// reset inside the loop before the call?
+								reset := false
+								for lb := range l.body {
+									for _, li := range lb.Instrs {
+										if rc, isCall := li.(*ssa.Call); isCall && rc.Common().StaticCallee() != nil && (rc.Common().StaticCallee().Name() == "Reset" || rc.Common().StaticCallee().Name() == "Truncate") && len(rc.Common().Args) > 0 && rc.Common().Args[0] == ssa.Value(al) {
+											reset = true
+										}
+									}
+								}
+								if !reset {
+									shared = true
+								}
+							}
+						}
+						if shared {
+							c.Report("escape.scratch", key, in.Pos(), fmt.Sprintf("%s hands %s a buffer declared outside the loop the call sits in, and %s appends to it and reads its whole content without resetting it: from the second call on the result is computed from the bytes of the earlier calls too", core.FnName(g), fn.Name(), fn.Name()))
+						} else {
+							c.Discharge("escape.scratch", key, in.Pos(), "the buffer is declared in the iteration, or reset in the loop")
+						}
+					}
+				}
+			}
+		}
+	}
+	c.Instances("escape.scratch", 0)
+	_ = n
 }
